@@ -147,6 +147,18 @@ fn reference_check(c: &Case, out: &Outcome, cfg: RefCfg, force_ambiguous: bool) 
     check_reference(&filtered, &r, cfg.asp, amb)
 }
 
+/// No duplicate keys, integers classified canonically; floats may be non-finite.
+fn only_nonfinite_irregular(d: &Doc) -> bool {
+    match d {
+        Doc::Neg(x) => *x < 0,
+        Doc::Seq(v) => v.iter().all(only_nonfinite_irregular),
+        Doc::Obj(m) => {
+            m.iter().enumerate().all(|(i, (k, v))| !m[..i].iter().any(|(k2, _)| k2 == k) && only_nonfinite_irregular(v))
+        }
+        _ => true,
+    }
+}
+
 fn any_class(_: &ReportClass) -> bool {
     true
 }
@@ -218,9 +230,18 @@ pub fn spec(prop: &str) -> Option<PropSpec> {
                 id: "C02",
                 groups: all,
                 scripts: Scripts::KeepOnly,
-                adversarial: false,
+                adversarial: true,
                 uses_reference: true,
-                check: Box::new(move |c, _, out, _| reference_check(c, out, cfg, false)),
+                check: Box::new(move |c, _, out, _| {
+                    if !c.plain {
+                        // of the payloads only the second source can present, the reference covers
+                        // non-finite floats into a serde_json::Value target (a leaf it cannot hold)
+                        if !(only_nonfinite_irregular(c.payload) && contains_json_target(c.cat, c.ty)) {
+                            return Ok(());
+                        }
+                    }
+                    reference_check(c, out, cfg, false)
+                }),
                 rule: "states = (catalogue type, payload) as C01 (canonical payloads, both value sources); one keep-going execution of the real code per state and source. Oracle: the multiset of reports (kind, location, detail) satisfies required ⊆ observed ⊆ required ⊎ optional against the reference interpreter of the documented semantics, and the multiset of examined positions (probe Enter events) equals the interpreter's: every field, element and map entry is examined unless hidden by one of the four structural causes.",
             }
         }
@@ -326,6 +347,10 @@ pub fn spec(prop: &str) -> Option<PropSpec> {
 
 pub fn run_catalogue(e: &Engine, prop: &str) -> i32 {
     let sp = spec(prop).expect("catalogue property");
+    if let Err(m) = self_check() {
+        eprintln!("MACHINERY ERROR: reference interpreter self-check failed: {m}");
+        return 2;
+    }
     let rec = Recorder::new(sp.id, e.tier);
     let groups = sp.groups;
     let select = move |r: &Root| group_in(r, groups);
@@ -338,6 +363,9 @@ pub fn run_catalogue(e: &Engine, prop: &str) -> i32 {
     }
     if sp.id == "C09" {
         crate::invariance::run_extras(e, &rec);
+    }
+    if sp.id == "C06" {
+        run_sizes(e, &rec);
     }
     let mut assume: Vec<&str> = ASSUME_COMMON.to_vec();
     if sp.uses_reference {
@@ -451,3 +479,93 @@ fn check_c11_rules(_c: &Case, out: &Outcome) -> Result<(), String> {
     Ok(())
 }
 
+
+
+/// C06, large containers: every length of a list that crosses the usual buffer
+/// and pre-allocation thresholds, all elements valid, and with a fault at the
+/// last position; value / report compared with the reference interpreter.
+pub fn run_sizes(e: &Engine, rec: &Recorder) {
+    use mc_desc::emit::ty_str;
+    use serde_json::json;
+    let mut sizes: Vec<usize> = (0..=40).collect();
+    for c in [64usize, 128, 256, 512, 1024, 2048, 4096, 8192, 16384, 32768, 65536] {
+        sizes.extend([c - 1, c, c + 1]);
+    }
+    if e.tier == Tier::Thorough {
+        sizes.extend([100_000, 131_071, 131_072, 131_073, 1_000_000]);
+    }
+    let wanted = [
+        "P<Vec<P<u8>>>",
+        "P<HashSet<P<u8>>>",
+        "P<BTreeSet<P<u8>>>",
+        "P<BTreeMap<String, P<u8>>>",
+        "P<HashMap<String, P<u8>>>",
+        "P<CS<u8>>",
+        "P<::serde_json::Value>",
+        "P<Vec<P<String>>>",
+    ];
+    let mut states = 0u64;
+    let mut execs = 0u64;
+    for w in wanted {
+        let Some(ri) = (0..e.cat.roots.len()).find(|i| ty_str(&e.cat.roots[*i].ty, e.cat) == w) else { continue };
+        let root = &e.cat.roots[ri];
+        let entry = &e.entries[ri];
+        for &n in &sizes {
+            let elem = |i: usize| -> Doc {
+                if w.contains("String>>>") && !w.contains("Map") {
+                    Doc::Str(format!("s{i}"))
+                } else {
+                    Doc::Int((i % 200) as u64)
+                }
+            };
+            let mut payloads: Vec<Doc> = vec![];
+            if w.contains("Map<") {
+                let m: Vec<(String, Doc)> = (0..n).map(|i| (format!("k{i:07}"), elem(i))).collect();
+                payloads.push(Doc::Obj(m.clone()));
+                if n > 0 {
+                    let mut m2 = m;
+                    m2[n - 1].1 = Doc::Bool(true);
+                    payloads.push(Doc::Obj(m2));
+                }
+            } else if w.contains("CS<") {
+                let parts: Vec<String> = (0..n).map(|i| (i % 200).to_string()).collect();
+                payloads.push(Doc::Str(parts.join(",")));
+                if n > 0 {
+                    let mut p2 = parts;
+                    p2[n - 1] = "x".into();
+                    payloads.push(Doc::Str(p2.join(",")));
+                }
+            } else {
+                let v: Vec<Doc> = (0..n).map(elem).collect();
+                payloads.push(Doc::Seq(v.clone()));
+                if n > 0 && !w.contains("serde_json") {
+                    let mut v2 = v;
+                    v2[n - 1] = Doc::Bool(true);
+                    payloads.push(Doc::Seq(v2));
+                }
+            }
+            for doc in payloads {
+                let doc = doc.canonical();
+                states += 1;
+                for src in [Src::Json, Src::Ov] {
+                    let out = execute(entry, src, &doc, &Script::keep_going());
+                    execs += 1;
+                    let r = reference(e.cat, &root.ty, &doc);
+                    let verdict = check_c01(&out).and_then(|_| check_reference(&out, &r, Aspects { status: true, value: true, reports: true, visited: false, calls: false }, false));
+                    if let Err(m) = verdict {
+                        let short: String = m.chars().take(400).collect();
+                        rec.violation(Violation {
+                            property: "C06".into(),
+                            subject: format!("{w} with {n} elements"),
+                            message: format!("{short}\n  payload: {} elements / entries / segments (valid values i % 200{}), source {src:?}", n, if r.value.is_none() { ", last one faulty" } else { "" }),
+                            replay: json!({"kind": "sizes", "type": w, "elements": n, "last_faulty": r.value.is_none(), "source": format!("{src:?}")}),
+                        });
+                    }
+                }
+            }
+        }
+    }
+    rec.add_counts(states, states, execs);
+    rec.set_extra("large_container_lengths", json!(sizes));
+    rec.set_extra("large_container_targets", json!(wanted));
+}
